@@ -358,3 +358,18 @@ Definition cv_opt_module (pkg : str) (o : option class_table) : cv :=
 Definition cv_res_packages (r : result class_table) : cv :=
   match r with Ok t => CL (map (fun m => CB (fst m)) t) | Err k => CE k end.
 Definition cv_pair (p : str * str) : cv := CL [CB (fst p); CB (snd p)].
+
+(* the classes of one module compared as a SET with what the harness read from the imported package: the
+   order in which a module defines its classes is not part of the property (field order within a class is) *)
+Definition cv_list_perm_eqb (a b : list cv) : bool :=
+  (length a =? length b)%nat
+  && forallb (fun x => existsb (cv_eqb x) b) a && forallb (fun y => existsb (cv_eqb y) a) b.
+Definition module_matches (pkg : str) (t : class_table) (real : list cv) : bool :=
+  match find_module pkg t with
+  | Some m => cv_list_perm_eqb (map cv_class (snd m)) real
+  | None => false
+  end.
+Definition res_module_matches (pkg : str) (r : result class_table) (real : list cv) : bool :=
+  match r with Ok t => module_matches pkg t real | Err _ => false end.
+Definition opt_module_matches (pkg : str) (o : option class_table) (real : list cv) : bool :=
+  match o with Some t => module_matches pkg t real | None => false end.
